@@ -222,32 +222,44 @@ class ModelInner:
         raise HarnessGap("checksum() not modelled")
 
     # ------------------------------------------------------------------ primitive mutations
+    # Every primitive is one atomic system call: the gate (_mut: interference hook, crash point, freeze) comes FIRST, the kernel's
+    # own validity checks and the effect come after it - so whatever another writer did in between is seen by the call itself.
     def _p_mkdir(self, d):
-        if self._mut("mkdir", d):
-            self.dirs[d] = self._newino()
+        if not self._mut("mkdir", d):
+            return
+        if d in self.dirs or d in self.files or d in self.links:
+            raise FileExistsError(errno.EEXIST, "File exists", d)
+        self._need_parent(d)
+        self.dirs[d] = self._newino()
 
-    def _p_create(self, p, data, mode):
-        """create/truncate + write in one primitive (torn writes are outside the model)"""
+    def _create_checks(self, p):
         q = self._resolve(p)
         self._need_parent(q)
         if q in self.dirs:
             raise IsADirectoryError(errno.EISDIR, "Is a directory", p)
         if q in self.fail_paths:
             raise self.fail_paths[q]
+        return q
+
+    def _p_create(self, p, data, mode):
+        """open(O_CREAT|O_TRUNC) + write.  With two_step_writes the two are separate crash/interference points (C15): a crash in
+        between leaves an empty file under that name.  Torn writes inside one write are outside the model."""
+        q0 = self._resolve(p)
         if self.two_step_writes and len(data) > 0:
-            # open(O_CREAT|O_TRUNC) and the write of the content are separate crash points (C15): a crash in between
-            # leaves an empty file under that name
-            if self._mut("create", q):
+            if self._mut("create", q0):
+                q = self._create_checks(p)
                 if q in self.files:
                     self.files[q].data = b""
                     self.files[q].mtime = self._tick()
                 else:
                     self.files[q] = Ino(self._newino(), b"", mode & ~self.umask, self._tick())
-            if self._mut("write", q, len(data)):
-                self.files[q].data = data
-                self.files[q].mtime = self._tick()
+                if self._mut("write", q, len(data)):
+                    if q in self.files:  # (an open descriptor would survive an unlink; the data then goes nowhere visible)
+                        self.files[q].data = data
+                        self.files[q].mtime = self._tick()
             return
-        if self._mut("write", q, len(data)):
+        if self._mut("write", q0, len(data)):
+            q = self._create_checks(p)
             if q in self.files:
                 i = self.files[q]
                 i.data = data
@@ -257,6 +269,8 @@ class ModelInner:
 
     def _p_rename(self, a, b):
         a, b = self._n(a), self._n(b)
+        if not self._mut("rename", a, b):
+            return
         if a not in self.files and a not in self.links:
             if a in self.dirs:
                 raise HarnessGap("rename of a directory is not modelled")
@@ -266,23 +280,22 @@ class ModelInner:
         self._need_parent(b)
         if b in self.fail_paths:
             raise self.fail_paths[b]
-        if self._mut("rename", a, b):
-            if b in self.files:
-                self.files.pop(b).nlink -= 1
-            self.links.pop(b, None)
-            if a in self.links:
-                self.links[b] = self.links.pop(a)
-            else:
-                self.files[b] = self.files.pop(a)
+        if b in self.files:
+            self.files.pop(b).nlink -= 1
+        self.links.pop(b, None)
+        if a in self.links:
+            self.links[b] = self.links.pop(a)
+        else:
+            self.files[b] = self.files.pop(a)
 
     def _p_unlink(self, p):
         p = self._n(p)
+        if not self._mut("unlink", p):
+            return
         if p in self.links:
-            if self._mut("unlink", p):
-                del self.links[p]
+            del self.links[p]
         elif p in self.files:
-            if self._mut("unlink", p):
-                self.files.pop(p).nlink -= 1
+            self.files.pop(p).nlink -= 1
         elif p in self.dirs:
             raise IsADirectoryError(errno.EISDIR, "Is a directory", p)
         else:
@@ -290,24 +303,28 @@ class ModelInner:
 
     def _p_rmdir(self, p):
         p = self._n(p)
+        if not self._mut("rmdir", p):
+            return
         if p not in self.dirs:
             if p in self.files or p in self.links:
                 raise NotADirectoryError(errno.ENOTDIR, "Not a directory", p)
             raise FileNotFoundError(errno.ENOENT, "No such file or directory", p)
         if self._children(p):
             raise OSError(errno.ENOTEMPTY, "Directory not empty", p)
-        if self._mut("rmdir", p):
-            del self.dirs[p]
+        del self.dirs[p]
 
     def _p_chmod(self, p, mode):
+        if not self._mut("chmod", self._resolve(p), _stat.S_IMODE(mode)):
+            return
         q = self._resolve(p)
         if q in self.files:
-            if self._mut("chmod", q, _stat.S_IMODE(mode)):
-                self.files[q].mode = _stat.S_IMODE(mode)
+            self.files[q].mode = _stat.S_IMODE(mode)
         elif q not in self.dirs:
             raise FileNotFoundError(errno.ENOENT, "No such file or directory", p)
 
     def _p_link(self, a, b):
+        if not self._mut("link", self._resolve(a), self._n(b)):
+            return
         a, b = self._resolve(a), self._n(b)
         if a not in self.files:
             raise FileNotFoundError(errno.ENOENT, "No such file or directory", a)
@@ -316,19 +333,19 @@ class ModelInner:
         self._need_parent(b)
         if b in self.fail_paths:
             raise self.fail_paths[b]
-        if self._mut("link", a, b):
-            self.files[b] = self.files[a]
-            self.files[a].nlink += 1
+        self.files[b] = self.files[a]
+        self.files[a].nlink += 1
 
     def _p_symlink(self, target, b):
         b = self._n(b)
+        if not self._mut("symlink", target, b):
+            return
         if self.lexists(b):
             raise FileExistsError(errno.EEXIST, "File exists", b)
         self._need_parent(b)
         if b in self.fail_paths:
             raise self.fail_paths[b]
-        if self._mut("symlink", target, b):
-            self.links[b] = (target, self._newino())
+        self.links[b] = (target, self._newino())
 
     # ------------------------------------------------------------------ fsspec-level mutations
     def makedirs(self, p, exist_ok=False):
@@ -345,7 +362,12 @@ class ModelInner:
             if d in self.files:
                 raise NotADirectoryError(errno.ENOTDIR, "Not a directory", d)
             if d not in self.dirs:
-                self._p_mkdir(d)
+                try:
+                    self._p_mkdir(d)
+                except FileExistsError:
+                    # os.makedirs: a parent created concurrently is fine; the leaf only with exist_ok
+                    if d not in self.dirs or (d == p and not exist_ok):
+                        raise
 
     def mkdir(self, p, create_parents=True, **kw):
         if create_parents:
@@ -484,10 +506,10 @@ class ModelInner:
         # name is observable by a crash (C15) or another writer (C16), so it is modelled as two primitives.
         self.read(a)
         b = self._n(b)
-        self._need_parent(b)
-        if b in self.dirs:
-            raise IsADirectoryError(errno.EISDIR, "Is a directory", b)
         if self._mut("reflink-create", b):
+            self._need_parent(b)
+            if b in self.dirs:
+                raise IsADirectoryError(errno.EISDIR, "Is a directory", b)
             if b in self.links:
                 b = self._resolve(b)
             if b in self.files:
@@ -496,7 +518,8 @@ class ModelInner:
             else:
                 self.files[b] = Ino(self._newino(), b"", 0o666 & ~self.umask, self._tick())
         if self._mut("reflink-unlink", b):
-            self.files.pop(b).nlink -= 1
+            if b in self.files:  # system.reflink ignores a failing unlink
+                self.files.pop(b).nlink -= 1
         raise OSError(errno.ENOTSUP, "reflink is not supported")
 
     def chmod(self, p, mode):
